@@ -354,6 +354,8 @@ class Arr(object):
 
     @property
     def T(self):
+        if self.budget is not None:
+            self.budget.hit()
         if self.ndim == 1:
             return self
         r, c = self.shape
@@ -1312,8 +1314,12 @@ LOG2 = z3.Function("log2", z3.RealSort(), z3.RealSort())
 LOGE = z3.Function("ln", z3.RealSort(), z3.RealSort())
 
 
+LOG_ARGS = []
+
+
 def log2(x):
     if is_sym(x):
+        LOG_ARGS.append(x)
         return SymReal(LOG2(zreal(x)))
     return delegate("log2", x)
 
